@@ -487,6 +487,39 @@ pub fn check(c: &Case) -> Outcome {
                 return Outcome::viol(format!("RK4: halving the step increased the error: {:?}", errs));
             }
         }
+        // "every sample returned (... or requested output times)": at requested times RK4 returns its cubic Hermite
+        // interpolant, so a sample inside a step (the clipped last one included, and xend itself) is as accurate as the
+        // step ends of the same run up to the interpolant's O(h^4) -- no order is measured here, only that bound
+        {
+            let steps = c.rk4_steps as f64 + c.rk4_frac;
+            let h = (sp.xend - sp.x0) / steps;
+            let mut fr: Vec<f64> = c.t_eval.clone().unwrap_or_default();
+            let nst = steps.ceil();
+            // two points inside the last (possibly clipped) step and its end
+            fr.extend_from_slice(&[1.0 - 0.6 * (steps - (nst - 1.0)) / steps, 1.0 - 0.1 * (steps - (nst - 1.0)) / steps, 1.0]);
+            fr.retain(|f| f.is_finite() && *f >= 0.0 && *f <= 1.0);
+            fr.sort_by(|a, b| a.partial_cmp(b).unwrap());
+            fr.dedup();
+            let times = fracs_to_times(sp, &fr);
+            let none: Vec<EvSpec> = vec![];
+            let mut instr = Instr::new(&prob, &none);
+            instr.dir = sp.dir();
+            let o = RunOpts { method: Meth::RK4, rtol: Tol::S(1e-6), atol: Tol::S(1e-6), first_step: Some(h), max_step: None, max_steps: None, t_eval: Some(times.clone()), dense: false };
+            if let RunResult::Ok(s) = solve(&instr, sp.x0, sp.xend, &prob.y0(), &o) {
+                if s.status == Status::Success {
+                    let allow = 10.0 * errs[0] + ymax * (prob.rate_t() * h.abs()).powi(4) + floor;
+                    for (t, y) in s.t.iter().zip(&s.y) {
+                        let e = max_abs_diff(y, &prob.exact(*t));
+                        if !(e <= allow) {
+                            return Outcome::viol(format!(
+                                "RK4: requested output time t={:e} (span [{:e},{:e}], step {:e}, {} steps): sample is off by {:e} while the step ends of the same run are accurate to {:e} (allowed {:e})",
+                                t, sp.x0, sp.xend, h, steps, e, errs[0], allow
+                            ));
+                        }
+                    }
+                }
+            }
+        }
         return Outcome::pass("RK4:order", !orders.is_empty(), json!({"errors": errs, "min_order": orders.iter().cloned().fold(f64::INFINITY, f64::min), "order_deficit": 4.0 - orders.iter().cloned().fold(f64::INFINITY, f64::min), "hr": hr}));
     }
 
@@ -724,7 +757,7 @@ pub fn run(ctx: &Ctx, known: &[Known]) -> Report {
     let stats = run_generated(ctx, "C01", "gen", &strategy, &check, cases, known);
     Report {
         id: "C01".into(),
-        rule: "cases = closed-form problems (stacked linear / logistic / Riccati / Bernoulli / planar blocks, n<=8, composed with a monotone time-warp and a well-conditioned linear mixing, a third of them in units of 2^-40..2^40 (state and absolute tolerances scaled together)) x spans (both directions; a quarter of them 1e-6..1e4 long, i.e. fast and slow time scales) x six methods; error-controlled methods run a tolerance ladder rtol, rtol/100, rtol/10^4 starting at 1e-3..1e-7 (RK23 1e-3..1e-5), atol scalar or per component, rtol scalar or per component, also pure absolute (rtol = 0), absolute-dominated (rtol = 1e-11, atol spread over 6 decades, optionally an identically-zero first/last component carrying a loose atol = 1e-2) and pure relative (atol = 0, positive solutions) control, with or without t_eval; 1/13 of the cases use randomly generated smooth dissipative vector fields y' = -Dy + B tanh(Wy+c) + s sin(wt+psi) (n<=6, contractive) checked against the harness's own Richardson-extrapolated RK4 reference integrator; RK4 runs 25..200 steps (half of the time with a step that does not divide the span, so the last step is clipped) and two halvings. Oracle: every sample against the exact solution, bound 100*kappa*naccpt*tolscale + rounding floor at every rung; per-component bound for decoupled problems; (rungs where the error grew more than 10x after tightening are counted in the evidence, not asserted); RK4 observed order >= 3.2 (minimum seen over 3e4 RK4 cases: 3.57) when the step resolves the fastest rate (h*rate <= 0.2). Non-trivial = Success, at least 3 accepted steps, some sample error above the rounding floor (RK4: at least one usable order estimate). Distinct = distinct canonical JSON.".into(),
+        rule: "cases = closed-form problems (stacked linear / logistic / Riccati / Bernoulli / planar blocks, n<=8, composed with a monotone time-warp and a well-conditioned linear mixing, a third of them in units of 2^-40..2^40 (state and absolute tolerances scaled together)) x spans (both directions; a quarter of them 1e-6..1e4 long, i.e. fast and slow time scales) x six methods; error-controlled methods run a tolerance ladder rtol, rtol/100, rtol/10^4 starting at 1e-3..1e-7 (RK23 1e-3..1e-5), atol scalar or per component, rtol scalar or per component, also pure absolute (rtol = 0), absolute-dominated (rtol = 1e-11, atol spread over 6 decades, optionally an identically-zero first/last component carrying a loose atol = 1e-2) and pure relative (atol = 0, positive solutions) control, with or without t_eval; 1/13 of the cases use randomly generated smooth dissipative vector fields y' = -Dy + B tanh(Wy+c) + s sin(wt+psi) (n<=6, contractive) checked against the harness's own Richardson-extrapolated RK4 reference integrator; RK4 runs 25..200 steps (half of the time with a step that does not divide the span, so the last step is clipped) and two halvings. Oracle: every sample against the exact solution, bound 100*kappa*naccpt*tolscale + rounding floor at every rung; per-component bound for decoupled problems; (rungs where the error grew more than 10x after tightening are counted in the evidence, not asserted); RK4 at requested output times (the generated ones, two points inside the last, possibly clipped, step, and xend): error <= 10 x the largest step-end error of the same run + |y|(rate*h)^4 + floor; RK4 observed order >= 3.2 (minimum seen over 3e4 RK4 cases: 3.57) when the step resolves the fastest rate (h*rate <= 0.2). Non-trivial = Success, at least 3 accepted steps, some sample error above the rounding floor (RK4: at least one usable order estimate). Distinct = distinct canonical JSON.".into(),
         assumptions: vec![
             "kappa = cond(S) * max block amplification bound (a priori, from the closed forms)".into(),
             "a non-Success status is not a C01 violation (C03/C14 own it); it makes the case trivial".into(),
